@@ -49,6 +49,23 @@ func checkKeysLoopCoverage(c *Ctx, rule string) {
 			}
 			return false
 		}
+		// which keys parameters are tested against the reads of other transactions
+		readTested := map[types.Object]bool{}
+		defer func(fs *FuncSrc) {
+			recv := sig.Recv()
+			if recv == nil || c17NamedOf(recv.Type()) == nil || c17NamedOf(recv.Type()).Obj().Name() != "Check" || len(p.CallsIn(fs, contains)) == 0 {
+				return // only the functions that test for conflicts (they call reads.contains at all)
+			}
+			for i := 0; i < sig.Params().Len(); i++ {
+				pv := sig.Params().At(i)
+				sl, ok := pv.Type().Underlying().(*types.Slice)
+				if !ok || !types.Identical(sl.Elem(), types.Typ[types.String]) {
+					continue
+				}
+				c.Obl(rule, fs.name+": the keys in parameter "+fmt.Sprint(i)+" are tested against the reads of the other transactions", p.Pos(fs.Decl), readTested[pv],
+					"no reads.contains(i, key) takes its key from this parameter: a write of these keys does not conflict with a transaction that read them (two transactions can both pass a duplicate check and commit the same key)")
+			}
+		}(fs)
 		for _, call := range calls {
 			if len(call.Args) < 2 {
 				continue
@@ -73,10 +90,16 @@ func checkKeysLoopCoverage(c *Ctx, rule string) {
 					case *ast.Ident:
 						if vid, _ := rs.Value.(*ast.Ident); vid != nil && info.Uses[a1] == info.Defs[vid] {
 							ok = true
+							if sameFunc(cal, contains) {
+								readTested[info.Uses[ast.Unparen(rs.X).(*ast.Ident)]] = true
+							}
 						}
 					case *ast.IndexExpr:
 						if ii, _ := ast.Unparen(a1.Index).(*ast.Ident); ii != nil && info.Uses[ii] == info.Defs[kid] && isKeysParam(a1.X) {
 							ok = true
+							if sameFunc(cal, contains) {
+								readTested[info.Uses[ast.Unparen(a1.X).(*ast.Ident)]] = true
+							}
 						}
 					}
 					if !ok {
